@@ -22,6 +22,7 @@ import (
 
 	"verif/props/core"
 	"verif/props/proto"
+	"verif/simnet"
 	"verif/vsched"
 )
 
@@ -171,6 +172,16 @@ func scenarios(tier string) []Scn {
 		r := proto.RTScn{Hostname: pr.h, Protocol: pr.p, Method: pr.m, MinTTL: 1, MaxTTL: 4, DelayMs: 10, TimeoutMs: 200, Queries: 2, E2e: 2, Dest: 3, PublicIP: "ok", ReverseDNS: true, UseListenerPort: pr.m == "sack", IPIDBase: 1400, EchoBase: 140}
 		out = append(out, Scn{Kind: "rt", RT: &r, Bound: 1, Name: "request/" + pr.p + "-" + pr.m + "/2-runs+2-probes+public-ip+rdns"})
 	}
+	for _, pr := range []struct{ p, m, h string }{{"udp", "", "203.0.113.77"}, {"tcp", "syn", "203.0.113.77"}} {
+		// every run and every probe of the request fails (no sink can be opened): all of them report into the shared error list
+		r := proto.RTScn{Hostname: pr.h, Protocol: pr.p, Method: pr.m, MinTTL: 1, MaxTTL: 4, DelayMs: 10, TimeoutMs: 200, Queries: 2, E2e: 2, Dest: 3, PublicIP: "ok", IPIDBase: 1400, EchoBase: 140,
+			Faults: []simnet.Fault{{Op: "NewSink", K: 0, Class: "fatal"}}}
+		out = append(out, Scn{Kind: "rt", RT: &r, Bound: 2, Name: "request/" + pr.p + "-" + pr.m + "/every-run-and-probe-fails"})
+	}
+	{
+		r := proto.RTScn{Hostname: "203.0.113.77", Protocol: "udp", MinTTL: 1, MaxTTL: 3, DelayMs: 10, TimeoutMs: 200, Queries: 1, E2e: 1, Dest: 2, ReverseDNS: true, IPIDBase: 1400, EchoBase: 140}
+		out = append(out, Scn{Kind: "rt2", RT: &r, Bound: 1, Name: "two-requests-at-once/udp"})
+	}
 	out = append(out, Scn{Kind: "rdns", Bound: b + 1, Name: "reverse-dns/3-addresses"})
 	out = append(out, Scn{Kind: "alloc", Bound: b + 1, Name: "allocators/3-callers"})
 	return out
@@ -189,6 +200,9 @@ func runOne(sc *Scn, prefix []int, sig []uint32) *vsched.Exec {
 	case "rt":
 		c := *sc.RT
 		return proto.RunRT(vsched.Config{Prefix: prefix, PrefixSig: sig, DelayBounded: true}, &c).X
+	case "rt2":
+		c := *sc.RT
+		return proto.RunRT2(vsched.Config{Prefix: prefix, PrefixSig: sig, DelayBounded: true}, &c).X
 	case "rdns":
 		cache.Cache.Flush()
 		old := reversedns.LookupAddrFn
